@@ -561,13 +561,14 @@ def run(model, rep, tier):
     gr = model.func("dns.grange.from_text")
     cgr = CFG(gr.node, implicit_exc=False)
     rets_g = [n for n in cgr.nodes if isinstance(n.ast, ast.Return) and n.ast.value is not None]
+    stepv = next((src(r.ast.value.elts[2]) for r in rets_g if isinstance(r.ast.value, ast.Tuple) and len(r.ast.value.elts) == 3), "step")
     ok_edges = set()
     for t in cgr.nodes:
         if isinstance(t.ast, ast.Assert):
-            if any(a[0] == "step" and ((a[1] == ">=" and a[2] == "1") or (a[1] == ">" and a[2] == "0")) for a in atoms(normalise_compare(t.ast.test))):
+            if any(a[0] == stepv and ((a[1] == ">=" and a[2] == "1") or (a[1] == ">" and a[2] == "0")) for a in atoms(normalise_compare(t.ast.test))):
                 ok_edges.add(t.id)
         elif t.kind == "test" and isinstance(t.ast, ast.If) and t.ast.body and isinstance(t.ast.body[-1], ast.Raise) and normalise_compare(t.ast.test)[0] in ("atom", "or"):
-            if any(a[0] == "step" and ((a[1] == "<" and a[2] == "1") or (a[1] == "<=" and a[2] == "0")) for a in atoms(normalise_compare(t.ast.test))):
+            if any(a[0] == stepv and ((a[1] == "<" and a[2] == "1") or (a[1] == "<=" and a[2] == "0")) for a in atoms(normalise_compare(t.ast.test))):
                 ok_edges.add(t.id)
     rep.check(bool(rets_g) and bool(ok_edges) and all(cgr.dominated_by_set(r.id, ok_edges) for r in rets_g), "R-04.12", gr.qualname, where(gr, rets_g[0].ast if rets_g else gr.node),
               "every returned step passed `step >= 1`",
